@@ -7,7 +7,7 @@ From Verif Require Import gen.PostC15 C15.Model.
 Import ListNotations.
 Open Scope Z_scope.
 
-Local Ltac Zify.zify_post_hook ::= Z.to_euclidean_division_equations.
+Ltac Zify.zify_post_hook ::= Z.to_euclidean_division_equations; ZifyBool.elim_bool_cstr.
 Ltac gen_arith := intros; cbv delta [g_base_len g_base_shift g_axis_mod g_pad_before g_pad_after
   g_crop_lo g_crop_hi g_stack_reject g_stack_axis_mod g_stack_time_mod g_stack_rem
   g_stack_pad_before g_stack_pad_after g_stack_T_padded g_stack_nT g_stack_nF g_stack_T2
@@ -143,3 +143,6 @@ Proof.
 Qed.
 Lemma stack_ctor_ok_eq c : stack_ctor_ok c = (1 <=? num_vectors c).
 Proof. unfold stack_ctor_ok. rewrite g_stack_reject_spec. lia. Qed.
+
+(* the division hook is only meant for this file: back to ZifyBool's own hook *)
+Ltac Zify.zify_post_hook ::= ZifyBool.elim_bool_cstr.
